@@ -53,6 +53,7 @@ class RemoveRedundantCoefficients(Contract):
     relpath = "numpoly/construct/clean.py"
     func = "remove_redundant_coefficients"
     properties = ("C03",)
+    positional = ("exponents", "coefficients")
 
     def cases(self):
         def make_env(ex):
@@ -152,6 +153,7 @@ class RemoveRedundantNames(Contract):
     relpath = "numpoly/construct/clean.py"
     func = "remove_redundant_names"
     properties = ("C03",)
+    positional = ("exponents", "names")
 
     @staticmethod
     def used(ctx, E, d):
@@ -377,6 +379,7 @@ class PostprocessAttributes(Contract):
     relpath = "numpoly/construct/clean.py"
     func = "postprocess_attributes"
     properties = ("C03", "C15")
+    positional = ("exponents", "coefficients")
 
     def _env(self, ex, names_kind, rc_kind, rn_kind, empty):
         ctx = ex.ctx
@@ -567,7 +570,8 @@ class PolynomialFromAttributes(Contract):
     name = "numpoly.polynomial_from_attributes"
     relpath = "numpoly/construct/from_attributes.py"
     func = "polynomial_from_attributes"
-    properties = ("C03", "C12", "C15")
+    properties = ("C03", "C12", "C15", "C13")
+    positional = ("exponents", "coefficients", "names", "dtype", "allocation", "retain_coefficients", "retain_names")
     assumptions = ("A1: numpy's cast of coefficient values to the requested dtype is treated as identity on values",
                    "B1: the abstract value val(p,i) depends only on the sparse coefficient map: dropping all-zero terms "
                    "and unused names does not change it (definition of the abstract view; embodied by conc/model.py)")
@@ -676,8 +680,7 @@ class PolynomialFromAttributes(Contract):
     # ------------------------------------------------------------------ as a callee
     def apply(self, ex, args, kw, node):
         ctx = ex.ctx
-        names_ = ["exponents", "coefficients", "names", "dtype", "allocation", "retain_coefficients", "retain_names"]
-        b = dict(zip(names_, args))
+        b = dict(zip(self.positional, args))
         b.update(kw)
         E, Cin = b.get("exponents"), b.get("coefficients")
         if isinstance(E, V.Seq):
@@ -738,6 +741,7 @@ class CleanAttributes(Contract):
     relpath = "numpoly/construct/clean.py"
     func = "clean_attributes"
     properties = ("C03", "C15")
+    positional = ("poly", "retain_coefficients", "retain_names")
 
     def cases(self):
         for flags in ("none", "sym"):
@@ -784,7 +788,7 @@ class CleanAttributes(Contract):
         P = args[0]
         if not isinstance(P, Poly):
             raise U("clean_attributes of non-ndpoly", node)
-        b = dict(zip(["poly", "retain_coefficients", "retain_names"], args))
+        b = dict(zip(self.positional, args))
         b.update(kw)
         ctx = ex.ctx
         site = ex.site("clean_attributes")
